@@ -124,6 +124,8 @@ class Ctx:
         self.violations = []     # dicts: bucket, message, case
         self.extra = {}
         self.exhaustive = False
+        from . import util
+        util.ROUTES.clear()
 
     # ---- accounting -------------------------------------------------------------------------
     def count(self, case=None, nontrivial=False, classes=(), key=None):
@@ -164,6 +166,10 @@ class Ctx:
             self.fail(bucket, message, case, key)
 
     def summary(self):
+        from . import util
+        if util.ROUTE_ON:
+            for k, n in util.ROUTES.items():
+                self.classes["construction:" + k] = n
         return dict(part=self.part, evaluations=self.evaluations, nontrivial=self.nontrivial,
                     samples=self.samples, nt_samples=self.nt_samples, classes=self.classes,
                     known_hits=self.known_hits, known_examples=self.known_examples,
@@ -171,11 +177,44 @@ class Ctx:
                     muted_hits=self.muted_hits, extra=self.extra, exhaustive=self.exhaustive)
 
 
+STRICT_EVERY = 8     # one case in STRICT_EVERY runs under the strict process configuration
+
+
+def strict_case(case):
+    """Deterministic in the case itself (for a history: in its initial state), so that a replay file re-creates the configuration."""
+    mode = os.environ.get("VERIF_STRICT", "none")
+    if mode != "some":
+        return mode == "all"
+    key = case["init"] if isinstance(case, dict) and "init" in case and "steps" in case else case
+    try:
+        h = hashlib.blake2b(json.dumps(key, sort_keys=True, default=jsonable).encode(), digest_size=2).digest()
+    except (TypeError, ValueError):
+        h = hashlib.blake2b(json.dumps(jsonable(key), sort_keys=True).encode(), digest_size=2).digest()
+    return h[0] % STRICT_EVERY == 0
+
+
+@contextlib.contextmanager
+def proc_config(ctx, case):
+    """Process-level configuration as an OPT-IN dimension (VERIF_STRICT=some|all; default none): numpy's floating-point error
+    state set to 'raise' and Python warnings escalated to errors (python -W error, pytest filterwarnings=error).  It is off in
+    the registered commands: the properties quantify over inputs and histories under the default configuration, and a
+    behaviour-preserving change that merely emits a numpy RuntimeWarning must not be reported (DESIGN.md 9.7, round 5)."""
+    if not strict_case(case):
+        yield
+        return
+    import warnings
+    import numpy as np
+    ctx.classes["process-config:strict"] += 1
+    with warnings.catch_warnings(), np.errstate(all="raise"):
+        warnings.simplefilter("error")
+        yield
+
+
 def guarded(ctx, check, case):
     """Run one case.  Exceptions escaping the code under test are violations (bucketed by type
     and innermost repository frame); exceptions of the harness itself are harness errors."""
     try:
-        with contextlib.redirect_stdout(_SINK):     # the library prints warnings / progress straight to stdout
+        with contextlib.redirect_stdout(_SINK), proc_config(ctx, case):     # the library prints warnings / progress straight to stdout
             check(ctx, case)
     except Muted:
         return
@@ -248,6 +287,8 @@ def _run_hyp_shard(args):
     mod = __import__("vlc.props." + modname, fromlist=["x"])
     part = [p for p in mod.parts(tier) if p.name == partname][0]
     ctx = Ctx(mod.PROPERTY, partname, tier, seed)
+    from . import util
+    util.ROUTE_ON = True
     strat = part.strategy(tier)
     shard_seed = seed * 1000 + idx
     phases = [Phase.generate, Phase.shrink]
@@ -342,6 +383,8 @@ def _run_custom_shard(args):
     mod = __import__("vlc.props." + modname, fromlist=["x"])
     part = [p for p in mod.parts(tier) if p.name == partname][0]
     ctx = Ctx(mod.PROPERTY, partname, tier, seed)
+    from . import util
+    util.ROUTE_ON = True
     try:
         part.run(ctx, tier, seed * 1000 + idx, idx, nshards)
     except env.HarnessError as e:
@@ -470,6 +513,8 @@ def replay(modname, path, out=sys.stdout):
         raise env.HarnessError("replay file names unknown part %r" % d["part"])
     part = part[0]
     ctx = Ctx(mod.PROPERTY, part.name, tier, 0)
+    from . import util
+    util.ROUTE_ON = part.kind != "enum"
     check = part.check
     if check is None:
         check = getattr(mod, "replay_" + part.name.replace("-", "_"))
